@@ -14,7 +14,7 @@ REAL = c02.REAL
 STUBS = c02.STUBS
 ASSUMPTIONS = ['delivery k of a victim is matched to its k-th accepted issue (causes are unique per issue)',
                'a process is "finished" for clause 5 when Process.is_alive is False at the call']
-PROBES = ['intr_at_instant_target_due', 'ge3_pending_for_one_victim', 'victim_died_with_pending',
+PROBES = ['interrupted_while_waiting_on_condition', 'intr_at_instant_target_due', 'ge3_pending_for_one_victim', 'victim_died_with_pending',
           'victim_rewaits_same_event', 'interrupt_finished_refused', 'interrupt_self_refused',
           'cowaiter_kept_outcome', 'interrupt_before_first_statement_attempt']
 
@@ -36,6 +36,8 @@ def gen(rng, tier):
     w['join'] = rng.choice([0, 1, 3])
     w['ret'] = rng.choice([0, 1])
     w['raise'] = rng.choice([0, 0, 1])
+    w['cond'] = rng.choice([0, 0, 1, 2])      # victims waiting on condition events
+    prof.depth = rng.choice([0, 1])
     prof.handlers = rng.choice([['cont', 'rewait', 'ret', 'other', 'raise', 'none'],
                                 ['cont', 'rewait', 'rewait', 'other'], ['cont'], ['rewait', 'none', 'ret']])
     return gen_program(rng, prof)
@@ -154,6 +156,11 @@ def check(log, quiescent):
     return viol, stats, nontrivial
 
 
+def deliveries_on_cond(log):
+    conds = set(r[4] for r in log if r[0] == 'K')
+    return any(r[0] == 'R' and r[7] == 'intr' and r[6] in conds for r in log)
+
+
 def run(case):
     from ..core import san
     w = setup_world(case)
@@ -170,7 +177,15 @@ def run(case):
         except AttributeError:
             ok, val = None, '<unavailable>'
         final[pid] = (alive, ok, val)
-    v2, s2, _ = c02.check(env.log, c02._values(case), final, quiescent)
+    # a condition a victim was interrupted on must still fire by its operands (for its other waiters / a re-yield)
+    from . import c05
+    v5, s5, _nt5, ch = c05.check(env.log, case, [])
+    for cl, msg in v5:
+        if cl == 'C05.1':
+            viol.append(('C04.4', 'condition awaited by an interrupted process: ' + msg))
+    if any(r[0] == 'K' for r in env.log) and deliveries_on_cond(env.log):
+        stats['interrupted_while_waiting_on_condition'] = 1
+    v2, s2, _ = c02.check(env.log, c02._values(case), final, quiescent, cond_handling=ch)
     for cl, msg in v2:
         if cl in ('C02.1', 'C02.2', 'C02.3'):
             viol.append(('C04.4', msg))
